@@ -17,6 +17,7 @@ type resKey struct {
 }
 
 func resultsOf(rs *zlint.ResultSet) map[string]resKey {
+	tick()
 	m := map[string]resKey{}
 	for k, v := range rs.Results {
 		if v != nil {
@@ -122,9 +123,16 @@ func init() {
 		for i, cc := range certs {
 			fullCert[i] = fullRun{zlint.LintCertificate(fresh(cc)), zlint.LintCertificate(fresh(cc))}
 		}
+		corpus.CRLs = append(corpus.CRLs, crlZoo()...)
+		freshCRL := func(cc CorpusCRL) *x509.RevocationList {
+			if c, err := x509.ParseRevocationList(cc.DER); err == nil {
+				return c
+			}
+			return cc.CRL
+		}
 		fullCrl := make([]fullRun, len(corpus.CRLs))
 		for i, cc := range corpus.CRLs {
-			fullCrl[i] = fullRun{zlint.LintRevocationList(cc.CRL), zlint.LintRevocationList(cc.CRL)}
+			fullCrl[i] = fullRun{zlint.LintRevocationList(freshCRL(cc)), zlint.LintRevocationList(freshCRL(cc))}
 		}
 		fullOcsp := make([]fullRun, len(corpus.OCSPs))
 		for i, cc := range corpus.OCSPs {
@@ -195,7 +203,7 @@ func init() {
 				compared += len(cn)
 			}
 			for i, cc := range corpus.CRLs {
-				filt := zlint.LintRevocationListEx(cc.CRL, fr)
+				filt := zlint.LintRevocationListEx(freshCRL(cc), fr)
 				compareFiltered(out, "crl "+cc.File, f, fullCrl[i].a, fullCrl[i].b, filt, ln)
 				runs++
 				compared += len(ln)
